@@ -288,10 +288,19 @@ def _list_paths(case, spec):
     return [p for p in paths if isinstance(_get_path(case, p), list)]
 
 
+LOOSE_KNOWN = None     # set during shrinking: list of known findings of the property
+
+
 def same_violation(res, target):
+    """the same violation again: same class and signature; while shrinking also the same class with
+    another signature, provided that signature is not a listed known finding"""
     for v in res.get("violations", []):
         if v.get("cls") == target["cls"] and v.get("sig") == target["sig"]:
             return v
+    if LOOSE_KNOWN is not None:
+        for v in res.get("violations", []):
+            if v.get("cls") == target["cls"] and match_known(LOOSE_KNOWN, v) is None:
+                return v
     return None
 
 
@@ -523,7 +532,10 @@ def run_check(pid, tier="quick", seed=0, nproc=16, runs=None, wall_cap=None, qui
             break
         knobs = knobs_of[tag]
         case, choices = r["case"], r["choices"]
+        global LOOSE_KNOWN
+        v_orig = v
         try:
+            LOOSE_KNOWN = known
             case2, choices2 = shrink(pid, prop, knobs, case, choices, v, nproc,
                                      budget_s=getattr(prop, "SHRINK_BUDGET", 60))
         except Exception:
@@ -533,7 +545,13 @@ def run_check(pid, tier="quick", seed=0, nproc=16, runs=None, wall_cap=None, qui
         recs = evaluate_many(pid, knobs, [(case2, choices2), (case2, choices2)], 2)
         ok = all(x and "harness_error" not in x and same_violation(x, v) for x in recs)
         same_digest = ok and recs[0]["digest"] == recs[1]["digest"]
+        if ok:
+            v = same_violation(recs[0], v)      # the (possibly re-labelled) minimised violation
+            LOOSE_KNOWN = None
+            ok = all(same_violation(x, v) for x in recs)
+        LOOSE_KNOWN = None
         if not ok or not same_digest:
+            v = v_orig
             # fall back to the unminimised run
             recs = evaluate_many(pid, knobs, [(case, choices), (case, choices)], 2)
             ok = all(x and "harness_error" not in x and same_violation(x, v) for x in recs)
